@@ -118,26 +118,6 @@ def simulateProtocolTC {σ} (S : Sys σ) (s : Sim σ) (prot : Protocol) (pts : L
       | none => (s, some .indexError)
       | some _ => ptcLoop S (outerJoin (prot'.map (·.1)) pts') tStart s prot'
 
-/-! ### histories with protocol calls -/
-
-inductive OpP where
-  | basic (op : Op)
-  | protocol (steps : List PStep) (tpps : Nat)
-  | protocolTC (steps : List PStep) (pts : List Rat) (rel : Bool)
-deriving Repr, DecidableEq
-
-def stepP {σ} (S : Sys σ) (s : Sim σ) : OpP → Out (Sim σ)
-  | .basic op => step S s op
-  | .protocol steps n => simulateProtocol S s (makeProtocol steps) n
-  | .protocolTC steps pts rel => simulateProtocolTC S s (makeProtocol steps) pts rel
-
-def runP {σ} (S : Sys σ) (s : Sim σ) : List OpP → Sim σ × List (Option Exc)
-  | [] => (s, [])
-  | op :: rest =>
-    let r := stepP S s op
-    let rr := runP S r.1 rest
-    (rr.1, r.2 :: rr.2)
-
 /-! ### what a protocol means: explicit calls -/
 
 /-- `[update p₁; simulate (T+d₁); update p₂; simulate (T+d₁+d₂); …]` -/
@@ -170,10 +150,126 @@ def Spec.protocolTC {σ} (S : Sys σ) (a : Spec σ) (steps : List PStep) (pts : 
     if last ≤ a.now then (a, some .valueError) else
     Spec.runStop S a (expandProtocolTC pts' a.now (normSteps steps))
 
+/-! ### a solver failure INSIDE a protocol call -/
+
+/-- which protocol step's solver call fails: `some 0` = this one, `some (k+1)` = the k-th after it, `none` = none -/
+def decFail : Option Nat → Option Nat
+  | some (k + 1) => some k
+  | _ => none
+
+/-- `simulate_protocol` when the solver fails in the step `k` (0-based) of the protocol: the loop body is the same; the
+    step's `simulate` is the failing one -/
+def protoLoopF {σ} (S : Sys σ) (tStart : Rat) (steps : Option Nat) : Option Nat → Sim σ → Protocol → Out (Sim σ)
+  | _, s, [] => (s, none)
+  | k, s, (tEnd, p) :: rest =>
+    match updPars s p with
+    | (s1, some e) => (s1, some e)
+    | (s1, none) =>
+      match (if k = some 0 then simulateF S s1 (tStart + tEnd) steps else simulate S s1 (tStart + tEnd) steps) with
+      | (s2, some e) => (s2, some e)
+      | (s2, none) => if s2.segs.isNone then (s2, none) else protoLoopF S tStart steps (decFail k) s2 rest
+
+/-- `Simulator.simulate_protocol`, the solver failing in step `k` (0-based) -/
+def simulateProtocolF {σ} (S : Sys σ) (s : Sim σ) (prot : Protocol) (tpps : Nat) (k : Nat) : Out (Sim σ) :=
+  if s.errors > 0 then (s, none) else
+  match reached? s.segs with
+  | .error e => (s, some e)
+  | .ok tStart => protoLoopF S tStart (some tpps) (some k) s prot
+
+/-- the explicit calls, the `k`-th `simulate` being the failing one -/
+def expandProtocolF (T : Rat) (n : Nat) : Option Nat → List PStep → List Op
+  | _, [] => []
+  | k, (d, p) :: rest =>
+    .updPars p :: (if k = some 0 then .simulateF (T + d) (some n) else .simulate (T + d) (some n))
+      :: expandProtocolF (T + d) n (decFail k) rest
+
+/-- the specification machine's reading: the explicit calls with the failing one in place `k`; a first step that fails on
+    a simulator WITHOUT results ends the call (`if self.variables is None: break`) -/
+def Spec.protocolF {σ} (S : Sys σ) (a : Spec σ) (steps : List PStep) (n k : Nat) : Out (Spec σ) :=
+  if a.failed then (a, none) else
+  let ops := expandProtocolF a.now n (some k) (normSteps steps)
+  Spec.runStop S a (if k == 0 && a.segs.isNone then ops.take 2 else ops)
+
+/-- `simulate_protocol_time_course` when the solver fails in step `k` -/
+def ptcLoopF {σ} (S : Sys σ) (full : List Rat) : Option Nat → Rat → Sim σ → Protocol → Out (Sim σ)
+  | _, _, s, [] => (s, none)
+  | k, tStart, s, (tEnd, p) :: rest =>
+    match updPars s p with
+    | (s1, some e) => (s1, some e)
+    | (s1, none) =>
+      match (if k = some 0 then timeCourseF S s1 (select full tStart tEnd)
+             else timeCourse S s1 (select full tStart tEnd)) with
+      | (s2, some e) => (s2, some e)
+      | (s2, none) => if s2.segs.isNone then (s2, none) else ptcLoopF S full (decFail k) tEnd s2 rest
+
+/-- the explicit time-course calls, the `k`-th being the failing one -/
+def expandProtocolTCF (pts : List Rat) : Option Nat → Rat → List PStep → List Op
+  | _, _, [] => []
+  | k, T, (d, p) :: rest =>
+    .updPars p :: (if k = some 0 then .timeCourseF (stepPoints pts T (T + d)) else .timeCourse (stepPoints pts T (T + d)))
+      :: expandProtocolTCF pts (decFail k) (T + d) rest
+
+/-- `Simulator.simulate_protocol_time_course`, the solver failing in step `k` (0-based) -/
+def simulateProtocolTCF {σ} (S : Sys σ) (s : Sim σ) (prot : Protocol) (pts : List Rat) (rel : Bool) (k : Nat) :
+    Out (Sim σ) :=
+  if s.errors > 0 then (s, none) else
+  match reached? s.segs with
+  | .error e => (s, some e)
+  | .ok tStart =>
+    if prot.isEmpty then (s, some .typeError) else
+    let prot' := prot.map fun r => (r.1 + tStart, r.2)
+    let pts' := if rel then pts.map (· + tStart) else pts
+    match pts'.getLast? with
+    | none => (s, some .indexError)
+    | some last =>
+      if Gen.protocolTCRefusal.eval last tStart then (s, some .valueError) else
+      match prot'.getLast? with
+      | none => (s, some .indexError)
+      | some _ => ptcLoopF S (outerJoin (prot'.map (·.1)) pts') (some k) tStart s prot'
+
+/-- the same for the time-course form (after the same argument checks) -/
+def Spec.protocolTCF {σ} (S : Sys σ) (a : Spec σ) (steps : List PStep) (pts : List Rat) (rel : Bool) (k : Nat) :
+    Out (Spec σ) :=
+  if a.failed then (a, none) else
+  if steps.isEmpty then (a, some .typeError) else
+  let pts' := if rel then pts.map (· + a.now) else pts
+  match pts'.getLast? with
+  | none => (a, some .indexError)
+  | some last =>
+    if last ≤ a.now then (a, some .valueError) else
+    let ops := expandProtocolTCF pts' (some k) a.now (normSteps steps)
+    Spec.runStop S a (if k == 0 && a.segs.isNone then ops.take 2 else ops)
+
+/-! ### histories with protocol calls -/
+
+inductive OpP where
+  | basic (op : Op)
+  | protocol (steps : List PStep) (tpps : Nat)
+  | protocolTC (steps : List PStep) (pts : List Rat) (rel : Bool)
+  | protocolF (steps : List PStep) (tpps : Nat) (k : Nat)                        -- the solver fails in step `k`
+  | protocolTCF (steps : List PStep) (pts : List Rat) (rel : Bool) (k : Nat)
+deriving Repr, DecidableEq
+
+def stepP {σ} (S : Sys σ) (s : Sim σ) : OpP → Out (Sim σ)
+  | .basic op => step S s op
+  | .protocol steps n => simulateProtocol S s (makeProtocol steps) n
+  | .protocolTC steps pts rel => simulateProtocolTC S s (makeProtocol steps) pts rel
+  | .protocolF steps n k => simulateProtocolF S s (makeProtocol steps) n k
+  | .protocolTCF steps pts rel k => simulateProtocolTCF S s (makeProtocol steps) pts rel k
+
+def runP {σ} (S : Sys σ) (s : Sim σ) : List OpP → Sim σ × List (Option Exc)
+  | [] => (s, [])
+  | op :: rest =>
+    let r := stepP S s op
+    let rr := runP S r.1 rest
+    (rr.1, r.2 :: rr.2)
+
 def Spec.stepP {σ} (S : Sys σ) (a : Spec σ) : OpP → Out (Spec σ)
   | .basic op => Spec.step S a op
   | .protocol steps n => Spec.protocol S a steps n
   | .protocolTC steps pts rel => Spec.protocolTC S a steps pts rel
+  | .protocolF steps n k => Spec.protocolF S a steps n k
+  | .protocolTCF steps pts rel k => Spec.protocolTCF S a steps pts rel k
 
 def Spec.runP {σ} (S : Sys σ) (a : Spec σ) : List OpP → Spec σ × List (Option Exc)
   | [] => (a, [])
@@ -194,5 +290,7 @@ def wfOp : OpP → Bool
   | .basic _ => true
   | .protocol steps _ => wfSteps steps
   | .protocolTC steps _ _ => wfSteps steps
+  | .protocolF steps _ _ => wfSteps steps
+  | .protocolTCF steps _ _ _ => wfSteps steps
 
 end Mxl.C14
